@@ -84,7 +84,7 @@ func propC08(c *Ctx) {
 	c.extra["functions_reachable_from_run_and_error_formatting"] = len(fns)
 	n := 0
 	for _, fn := range fns {
-		if r := fn.Signature.Recv(); r != nil && isNamed(r.Type(), modPath, "vmPool") {
+		if l.poolDomain()[fn] {
 			continue // the pool manages the private Bytecode of child VMs (C14)
 		}
 		eachInstr(fn, func(ins ssa.Instruction) {
@@ -295,7 +295,7 @@ func propC12(c *Ctx) {
 	if pf := getPoolFacts(c, rs, vf); pf != nil {
 		idx := vf.field("modulesCache")
 		var st *ssa.Store
-		eachInstr(pf.acquire, func(ins ssa.Instruction) {
+		eachInstrDeep(pf.acquire, 3, func(ins ssa.Instruction) {
 			if s, ok := ins.(*ssa.Store); ok {
 				if fa, ok := vf.isVMFieldAddr(s.Addr); ok && fa.Field == idx {
 					st = s
